@@ -184,6 +184,54 @@ def refine_tie(ctx, h, db, E, code, pks, reqs, checks):
         checks.append(('refine', [h['bases'], c, e, rb, wb], real))
 
 
+# ----------------------------------------------------------------------------------------------- tie: table references and the discriminator filter
+
+class _FakeRoot(object): optimize = None; from_optimized = False
+class _FakeTranslator(object): root_translator = _FakeRoot()
+class FakeSqlQuery(object):
+    """what TableRef / JoinedTableRef .make_join touch of a SqlQuery: FROM list, conditions, aliases, join_table"""
+    def __init__(self):
+        self.from_ast = ['FROM']; self.conditions = []; self.joins = []; self.n = 0; self.translator = _FakeTranslator()
+    def make_alias(self, name): self.n += 1; return '%s-%d' % (name, self.n)
+    def join_table(self, parent_alias, alias, table_name, join_cond): self.joins.append((alias, table_name, list(join_cond)))
+
+
+def _is_criteria(c, entity):
+    a = entity._discriminator_attr_
+    return isinstance(c, (list, tuple)) and len(c) == 3 and c[0] == 'IN' and c[1][0] == 'COLUMN' and a is not None and c[1][2] == a.column
+
+
+def join_tie(ctx, h, E, H, reqs, checks):
+    """the REAL make_join methods driven with random sequences of pk_only flags on real entities / attributes (SqlQuery replaced by a recorder)
+    vs Model/JoinDiscr (whose guards are regenerated from the source)"""
+    from pony.orm import sqltranslation as st
+    rng = ctx.rng
+    def calls(): return [rng.random() < 0.5 for _ in range(rng.choice([1, 1, 2, 3, 4]))]
+    for e in E + [H]:
+        for cls_name in ('tableref', 'star'):
+            cs = calls(); sq = FakeSqlQuery()
+            t = st.TableRef(sq, 'v', e) if cls_name == 'tableref' else st.StarTableRef(sq, 'v', e, ['SELECT', ['ALL', ['COLUMN', None, 'id']], ['FROM', ['t', 'TABLE', 'x']]])
+            for pk in cs: t.make_join(pk_only=pk)
+            real = {'joined': t.joined, 'fromItems': sum(1 for f in sq.from_ast[1:] if f[0] == t.alias), 'filters': sum(1 for c in sq.conditions if _is_criteria(c, e))}
+            reqs.append({'op': 'joins', 'kind': cls_name, 'hasDiscr': e._discriminator_attr_ is not None, 'calls': cs})
+            checks.append(('joins', [cls_name, e.__name__, cs], real))
+    attrs = [a for a in H._attrs_ if a.reverse] + [a for a in E[0]._attrs_ if a.reverse]
+    for attr in attrs:
+        for _ in range(2):
+            cs = calls(); sq = FakeSqlQuery()
+            parent = st.TableRef(sq, 'p', attr.entity)
+            jt = st.JoinedTableRef(sq, 'p-' + attr.name, parent, attr)
+            target = attr.py_type
+            for pk in cs: jt.make_join(pk_only=pk)
+            kind = ('fkLeft' if attr.columns else 'o2oRight') if not attr.is_collection else ('o2m' if not attr.reverse.is_collection else 'm2m')
+            m2m_table = attr.table if kind == 'm2m' else None
+            ej = [j for j in sq.joins if j[1] == target._table_ and j[1] != m2m_table]
+            real = {'joined': jt.joined, 'optimized': bool(jt.optimized), 'entityJoins': len(ej), 'm2mJoins': sum(1 for j in sq.joins if m2m_table is not None and j[1] == m2m_table),
+                    'filters': sum(1 for j in sq.joins for c in j[2] if _is_criteria(c, target))}
+            reqs.append({'op': 'joins', 'kind': kind, 'hasDiscr': target._discriminator_attr_ is not None, 'calls': cs})
+            checks.append(('joins', [kind, '%s.%s' % (attr.entity.__name__, attr.name), cs], real))
+
+
 # ----------------------------------------------------------------------------------------------- tie: isinstance translation
 
 def isinstance_cond(q, cmap):
@@ -489,6 +537,7 @@ def one_world(ctx, h, reqs, checks):
     db, E, H = build(h)
     try:
         code = hier_tie(ctx, h, E, reqs, checks)
+        join_tie(ctx, h, E, H, reqs, checks)
         try:
             w = populate(rng, h, db, E, H)
         except Exception as e:
@@ -607,6 +656,9 @@ def run(ctx):
         if 'driver_error' in out:
             ctx.divergence('driver error', inp if kind != 'hier' else inp['bases'], model=out, impl=None); continue
         if kind == 'hier': compare_hier(ctx, inp, real, out)
+        elif kind == 'joins':
+            ctx.case(['joins'] + inp, kind='tie:joins:%s:%s' % (inp[0], 'pk-first' if inp[2][0] else 'full-first'))
+            if out != real: ctx.divergence('make_join / discriminator criteria: model (guards regenerated from the source) and the real method disagree', inp, model=out, impl=real)
         elif kind == 'refine':
             ctx.case(['refine'] + inp, kind='tie:refine:' + ('ok' if 'ok' in real else real['error']))
             if out != real: ctx.divergence('_get_from_identity_map_ class refinement: model and real code disagree', inp, model=out, impl=real)
